@@ -121,9 +121,6 @@ def _targets():
     t['fuzz-hexasm'] = dict(
         deps=CXX_HDRS + _r('hex.cpp') + _s('fuzz_hexasm.cpp', 'fuzz_common.hpp', 'refisa.hpp'),
         cmds=lambda out: ['%s %s %s -o %s/fuzz-hexasm' % (FUZZ, _s('fuzz_hexasm.cpp')[0], _r('hex.cpp')[0], out)])
-    t['fillmalloc'] = dict(
-        deps=_s('fill_malloc.c'),
-        cmds=lambda out: ['gcc -O2 -shared -fPIC %s -o %s/fillmalloc.so -ldl' % (_s('fill_malloc.c')[0], out)])
     return t
 
 
